@@ -317,24 +317,18 @@ class Gen:
             return ["int", r.choice(NINTS)]
         if k == "float":
             self.note("lit.float")
-            if bad:
-                c = r.random()
-                if c < 0.55:
-                    return ["float", f64_bits(r.choice(FLOATS_INTEGRAL))]
-                if c < 0.7:
-                    return ["float", f64_bits(-0.0)]
-                if c < 0.85:
-                    return ["float", f64_bits(r.choice(FLOATS_BIG))]
-                return ["float", f64_bits(r.choice([float("inf"), float("-inf")]))]
+            c = r.random()      # integral, negative-zero and huge values were a finding (f413e66): now ordinary members of the pool
+            if c < 0.2:
+                return ["float", f64_bits(r.choice(FLOATS_INTEGRAL))]
+            if c < 0.25:
+                return ["float", f64_bits(-0.0)]
+            if c < 0.32:
+                return ["float", f64_bits(r.choice(FLOATS_BIG))]
             f = r.choice(FLOATS_OK) if r.random() < 0.7 else (r.randrange(1, 1 << 20) + 0.5) / r.choice([1, 2, 4, 8, 1024]) * r.choice([1, -1])
-            if f == int(f):
-                f += 0.25
             return ["float", f64_bits(f)]
         if k == "text":
             self.note("lit.text")
-            if bad:
-                return ["text", r.choice(TEXTS_ESC).encode().hex()]
-            return ["text", r.choice(TEXTS_OK).encode().hex()]
+            return ["text", r.choice(TEXTS_ESC if r.random() < 0.2 else TEXTS_OK).encode().hex()]
         self.note("lit.bytes")
         form = r.choice("uhb")
         if form == "u":
@@ -362,7 +356,7 @@ class Gen:
 
     def type2(self, depth):
         r = self.rng
-        opts = ["value"] * 4 + ["name"] * 4 + ["tagm", "any", "gname"] + (["unwrap"] if r.random() < 0.3 else [])
+        opts = ["value"] * 4 + ["name"] * 4 + ["tagm", "any", "gname", "unwrap"]
         if depth > 0:
             opts += ["paren", "map", "map", "arr", "arr", "ginl", "tag", "tag"]
         k = r.choice(opts)
@@ -384,7 +378,7 @@ class Gen:
         if k == "gname":
             return ["gname", self.ident(group="only"), self.gargs(depth)]
         if k == "tag":
-            if r.random() < self.defects * 0.5:
+            if r.random() < 0.15:
                 self.note("tag.no-type")
                 return ["tag", r.choice([None, ["lit", "32"]]), []]
             return ["tag", self.tagc(), self.type(depth - 1)]
@@ -400,7 +394,7 @@ class Gen:
         if c < 0.6:
             return ["int", r.choice(NINTS)]
         if c < 0.8:
-            return ["float", f64_bits(r.choice(FLOATS_OK))] if r.random() > self.defects else ["float", f64_bits(r.choice(FLOATS_INTEGRAL))]
+            return ["float", f64_bits(r.choice(FLOATS_OK + FLOATS_INTEGRAL))]
         return ["name", self.ident(sockets=False), None]
 
     def type1(self, depth):
@@ -413,10 +407,7 @@ class Gen:
             return {"t2": self.bound(), "op": ["r", r.random() < 0.5], "c2": self.bound()}
         self.note("op.ctl")
         name = r.choice(CTL_NAMES)
-        t2 = self.type2(min(depth, 1))
-        if t2[0] in ("gname", "unwrap") and r.random() < 0.75:      # `&name .op x` is a known finding: keep it rare
-            t2 = ["name", self.ident(), None]
-        return {"t2": t2, "op": ["c", "." + name], "c2": self.type2(min(depth, 1))}
+        return {"t2": self.type2(min(depth, 1)), "op": ["c", "." + name], "c2": self.type2(min(depth, 1))}
 
     def type(self, depth):
         r = self.rng
@@ -1055,7 +1046,7 @@ def literal_catalogue(rng, n_random, drv=None):
         src = i if i.startswith("-") else ("-0" if i == "0" else None)     # a non-negative IntValue has no spelling but -0
         cat.append(("int", "L\tI\t" + i, "L\tI\t" + i, src))
         cat.append(("int.value", "L\tVI\t" + i, "L\tI\t" + i, None))
-    floats = FLOATS_OK + FLOATS_INTEGRAL + FLOATS_BIG + [-0.0, float("inf"), float("-inf"), 5e-324, 2.2250738585072014e-308,
+    floats = FLOATS_OK + FLOATS_INTEGRAL + FLOATS_BIG + [-0.0, 5e-324, 2.2250738585072014e-308,
                                                           1.7976931348623157e308, 0.1 + 0.2, 1e22, 1e23, 9007199254740993.0, 1e-5, 123e-20]
     for _ in range(n_random * 3):
         c = rng.random()
@@ -1075,7 +1066,7 @@ def literal_catalogue(rng, n_random, drv=None):
     for f in floats:
         bits = f64_bits(f)
         if f in (float("inf"), float("-inf")):
-            ol = "L\tF\tinf\t%d" % (1 if f < 0 else 0)
+            continue            # no CDDL spelling; the parser rejects overflowing literals (4743917)
         else:
             neg, m, e = float_decimal(f, exps.get(bits))
             ol = "L\tF\t%d\t%d\t%d" % (1 if neg else 0, m, e)
@@ -1115,6 +1106,7 @@ def marker_catalogue():
             cat.append(("occur", "L\tO\t%s\t%s" % (lo, hi), "O\tn\t%s\t%s" % (lo, hi), src))
     for n in ["-", "0", "1", "23", "24", "32", "55799", "4294967295", "18446744073709551615"]:
         cat.append(("tag", "L\tG6\t" + n, "G\t6\t" + n, None))
+        cat.append(("tag.empty", "L\tG6E\t" + n, "G\t6\t" + n, "a = #6" + ("" if n == "-" else "." + n)))
         for mt in [0, 1, 2, 3, 4, 5, 7]:
             cat.append(("major", "L\tGM\t%d\t%s" % (mt, n), "G\tM\t%d\t%s" % (mt, n), "a = #%d%s" % (mt, "" if n == "-" else "." + n)))
     cat.append(("any", "L\tGA", "G\tA", "a = #"))
@@ -1124,6 +1116,9 @@ def marker_catalogue():
         cat.append(("ident", "L\tN\t%d" % s, "N\t0\t%d\t78" % s, None))
         cat.append(("unwrap", "L\tW\t%d" % s, "N\t1\t%d\t78" % s, None))
         cat.append(("gname", "L\tA\t%d" % s, "N\t2\t%d\t78" % s, None))
+    for nl in (0, 1):
+        for op in ["." + n for n in CTL_NAMES_PEG] + ["..", "..."]:
+            cat.append(("type1.spacing", "L\tT1\t%d\t%s" % (nl, op), "T\t%d\t%s" % (nl, op.encode().hex()), None))
     for b in (0, 1):
         cat.append(("cut", "L\tX\t%d" % b, "X\t%d" % b, None))
         cat.append(("rangeop", "L\tRO\t%d" % b, "R\t%d" % b, None))
@@ -1242,6 +1237,8 @@ def coq_expr_of(line):
         return "marked_line %s %s %s" % (p[1], p[2], cl(p[3]))
     if p[0] == "X":
         return "cut_line %s" % ("true" if p[1] == "1" else "false")
+    if p[0] == "T":
+        return "type1_line %s %s" % ("true" if p[1] == "1" else "false", cl(p[2]))
     if p[0] == "R":
         return "rangeop_line %s" % ("true" if p[1] == "1" else "false")
     if p[0] == "K":
@@ -1275,6 +1272,7 @@ WITNESSES = {
     "kf-c06-comma-dropped-after-hash": ["a = [#, 1*2 int]", "a = [#1, (int)]"],
     "kf-c06-newline-in-literal-deleted": ['a = [ "x\ny" // int // tstr ]'],
     "kf-c06-comment-breaks-reparse": ["a = [ int, ; c1\n tstr // bool // nil ]", "a = [ int // tstr ; c1\n ]"],
+    "kf-c06-comment-migrates": ["a = #1 / ; c\n#3 / #4"],
 }
 
 
@@ -1381,8 +1379,6 @@ def run(tier, seed):
             rendering += b"(x)"          # the driver prints the whole TaggedData node with the type `x`
         if cls == "cut":
             rendering = b"x" + rendering  # ... and the whole member key `x`
-        if cls == "tag.empty":
-            pass                         # TaggedData without content type: head only, no parentheses
         if got != rendering:
             res.violation("renderer model and code differ on %s: code prints %r, Fmt/Render.v gives %r" % (c[1].replace("\t", " "), got, rendering),
                           {"kind": "literal", "driver_line": c[1], "oracle_line": c[2], "impl": a, "model": m.hex()})
@@ -1407,7 +1403,7 @@ def run(tier, seed):
     fixed_b = roundtrips(drv, [w[0] for w in C16_FIXED_WITNESSES])
     for w, bb, rr in zip(C16_FIXED_WITNESSES, fixed_b, fixed_c):
         evaluations += 1
-        if verdict(bb) != "ok" or comment_verdict(bb["s0"], w[2], rr) != "ok" or verdict(rr) != "ok":
+        if verdict(bb) != "ok" or comment_verdict(bb["s0"], w[2], rr) != "ok":
             res.violation("a repaired comment finding is back: %r is formatted as %r" % (w[1], rr.get("p1")), {"kind": "doc", "text": w[1]})
     for fid, texts in WITNESSES.items():
         rs = roundtrips(drv, texts)
